@@ -376,6 +376,8 @@ func (r *e1Run) preLin(fa *FA, p *Pre) *Lin {
 	switch p.Kind {
 	case "param>=0":
 		return ineqGE(fa.expand(fa.fn.Params[p.Param]), linConst(0))
+	case "param>=1":
+		return ineqGE(fa.expand(fa.fn.Params[p.Param]), linConst(1))
 	case "cell>=0":
 		key := "P:" + fa.fn.Params[p.Param].Name()
 		ver := fa.mem.entry[key]
@@ -853,6 +855,9 @@ func (r *e1Run) genCall(fa *FA, c *ssa.Call) {
 		case "param>=0":
 			r.add(&e1Obl{Kind: "PRE", What: fmt.Sprintf("%s requires %s ≥ 0", callee.Name(), callee.Params[p.Param].Name()), Fn: fa.fn, In: c,
 				Goals: []*Lin{ineqGE(fa.expand(com.Args[p.Param]), linConst(0))}})
+		case "param>=1":
+			r.add(&e1Obl{Kind: "PRE", What: fmt.Sprintf("%s requires %s ≥ 1", callee.Name(), callee.Params[p.Param].Name()), Fn: fa.fn, In: c,
+				Goals: []*Lin{ineqGE(fa.expand(com.Args[p.Param]), linConst(1))}})
 		case "cell>=0":
 			key := fa.mem.addrKey(com.Args[p.Param])
 			if key == "" {
